@@ -252,3 +252,12 @@ _G = "src/scenic/syntax/scenic.gram"
 M("C09", "C09.reference", _G, "    | a=param_no_default+ b=param_with_default* c=[star_etc] {\n        self.make_arguments(None, [], a, b, c)\n", "    | a=param_no_default+ b=param_with_default* c=[star_etc] {\n        self.make_arguments(None, a, [], b, c)\n", "c09-params-posonly-slot")
 
 M("C12", "C12.order", "src/scenic/core/simulators.py", "            if maxSteps and self.currentTime >= maxSteps:", "            if maxSteps and self.currentTime > maxSteps:", "c12-step-limit-off-by-one")
+
+_CACHE_T = "            if (\n                prev_centerZ + prev_height / 2 > centerZ + height / 2\n                and prev_centerZ - prev_height / 2 < centerZ - height / 2\n            ):"
+RF("C03", _R, _CACHE_T, "            if abs(centerZ - prev_centerZ) + height / 2 < prev_height / 2:", "c03-rf-cache-abs-form")
+M("C03", "C03.cache", _R, _CACHE_T, "            if (\n                prev_centerZ + prev_height / 2 > centerZ + height / 2\n            ):", "c03-cache-upper-only")
+M("C16", "C16.units", _R, "                if (\n                    self.dimensionality == reg.dimensionality\n                    and self.size * 1.01 < reg.size\n                ):", "                if self.size * 1.01 < reg.size:", "c16-size-across-dimensionalities")
+M("C15", "C15.sinks", "src/scenic/core/specifiers.py", "        self.requiredProperties = tuple(sorted(deps))", "        self.requiredProperties = set(deps)", "c15-specifier-deps-set")
+M("C14", "C14.runstate", "src/scenic/core/dynamics/scenarios.py", "        self._subScenarios = []\n\n        # Compute time limit", "        # Compute time limit", "c14-stale-subscenarios")
+M("C12", "C12.kinds", "src/scenic/core/dynamics/scenarios.py", "        if ty is not RequirementType.require:\n", "        if False:\n", "c12-dynamic-kinds-undispatched")
+M("C13", "C13.flags", "src/scenic/syntax/compiler.py", "        self.usedBreak, self.usedContinue = oldUsedBreak, oldUsedContinue\n", "", "c13-flags-not-restored")
